@@ -284,6 +284,25 @@ func c07BodyCase(c *core.Case) {
 		return e
 	}}, 0)
 	spec := specForBody(body)
+	// item limits: a body that exceeds them is an error, but the dependency
+	// statement covers erroneous decodes too (same value, same diagnostics)
+	var limit func(s hcldec.Spec)
+	limit = func(s hcldec.Spec) {
+		if o, ok := s.(hcldec.ObjectSpec); ok {
+			for _, sub := range o {
+				if bt, ok := sub.(*hcldec.BlockTupleSpec); ok {
+					switch r.Intn(6) {
+					case 0:
+						bt.MaxItems = 1
+					case 1:
+						bt.MinItems = 3
+					}
+					limit(bt.Nested)
+				}
+			}
+		}
+	}
+	limit(spec)
 	src := gen.RenderNative(body, gen.CanonicalFileLayout())
 	useDyn := gen.Chance(r, 0.4)
 	if useDyn {
